@@ -11,12 +11,18 @@ namespace {
 struct St {
     nix::File file;
     nix::Block block;
-    nix::DataFrame df;
+    nix::DataFrame h[2];      // two long-lived handles of the one frame (separate backend objects)
+    unsigned muts = 0; int lastMut = 0;
     std::string path;
 } st;
 
+// Two handles of one frame must be indistinguishable (nothing may be cached in a handle): changes go mostly through h[0],
+// every third through h[1]; reads go through the handle that did not make the last change.
+nix::DataFrame &wrH() { st.lastMut = (st.muts++ % 3 == 2) ? 1 : 0; return st.h[st.lastMut]; }
+nix::DataFrame &rdH() { return st.h[1 - st.lastMut]; }
+
 void resetAll() {
-    st.df = nix::DataFrame();
+    st.h[0] = nix::DataFrame(); st.h[1] = nix::DataFrame(); st.muts = 0; st.lastMut = 0;
     st.block = nix::Block();
     if (st.file) { st.file.close(); st.file = nix::File(); }
     if (!st.path.empty()) std::remove(st.path.c_str());
@@ -111,7 +117,7 @@ struct ColWriter {
     template<typename T> std::string run() {
         std::vector<T> v;
         for (auto &x : *vals) v.push_back(Elem<T>::from(x));
-        if (ref.byName) st.df.writeColumn(ref.name, v, off, count); else st.df.writeColumn(ref.idx, v, off, count);
+        if (ref.byName) wrH().writeColumn(ref.name, v, off, count); else wrH().writeColumn(ref.idx, v, off, count);
         return "";
     }
 };
@@ -119,8 +125,8 @@ struct ColReader {
     ColRef ref; size_t k; bool withCount; size_t count; bool resize; nix::ndsize_t off;
     template<typename T> std::string run() {
         std::vector<T> v(k, sentinel<T>());
-        if (withCount) { if (ref.byName) st.df.readColumn(ref.name, v, count, resize, off); else st.df.readColumn(ref.idx, v, count, resize, off); }
-        else { if (ref.byName) st.df.readColumn(ref.name, v, resize, off); else st.df.readColumn(ref.idx, v, resize, off); }
+        if (withCount) { if (ref.byName) rdH().readColumn(ref.name, v, count, resize, off); else rdH().readColumn(ref.idx, v, count, resize, off); }
+        else { if (ref.byName) rdH().readColumn(ref.name, v, resize, off); else rdH().readColumn(ref.idx, v, resize, off); }
         std::vector<std::string> out;
         for (auto &x : v) out.push_back(Elem<T>::to(x));
         return listTok(out);
@@ -148,7 +154,8 @@ DRV_OP(df_new) {
             nix::Column c; c.name = unhexStr(x.substr(0, p)); c.unit = unhexStr(x.substr(p + 1, q - p - 1)); c.dtype = dtOf(x.substr(q + 1));
             cols.push_back(c);
         }
-        st.df = st.block.createDataFrame("df", "t", cols);
+        st.h[0] = st.block.createDataFrame("df", "t", cols);
+        st.h[1] = st.block.getDataFrame("df");
         return std::string();
     });
 }
@@ -161,23 +168,23 @@ DRV_OP(df_exists) {
 // df_rows <n> ; df_nrows => ok <rows()>
 DRV_OP(df_rows) {
     if (a.size() != 2) throw ProtoError("df_rows arity");
-    return guarded([&]() { st.df.rows(tokNat(a[1])); return std::string(); });
+    return guarded([&]() { wrH().rows(tokNat(a[1])); return std::string(); });
 }
 DRV_OP(df_nrows) {
-    return guarded([&]() { return std::to_string(st.df.rows()); });
+    return guarded([&]() { return std::to_string(rdH().rows()); });
 }
 // df_cols => ok [name:unit:Type,…]
 DRV_OP(df_cols) {
-    return guarded([&]() { return colsTok(st.df.columns()); });
+    return guarded([&]() { return colsTok(rdH().columns()); });
 }
 // df_colname <index> => ok <name> ; df_colidx <name> => ok <index>
 DRV_OP(df_colname) {
     if (a.size() != 2) throw ProtoError("df_colname arity");
-    return guarded([&]() { return hexStr(st.df.colName((unsigned) tokNat(a[1]))); });
+    return guarded([&]() { return hexStr(rdH().colName((unsigned) tokNat(a[1]))); });
 }
 DRV_OP(df_colidx) {
     if (a.size() != 2) throw ProtoError("df_colidx arity");
-    return guarded([&]() { return std::to_string(st.df.colIndex(unhexStr(a[1]))); });
+    return guarded([&]() { return std::to_string(rdH().colIndex(unhexStr(a[1]))); });
 }
 // df_wrow <row> [Type:value,…]
 DRV_OP(df_wrow) {
@@ -185,7 +192,7 @@ DRV_OP(df_wrow) {
     return guarded([&]() {
         std::vector<nix::Variant> vs;
         for (auto &x : tokList(a[2])) vs.push_back(variantOf(x));
-        st.df.writeRow(tokNat(a[1]), vs);
+        wrH().writeRow(tokNat(a[1]), vs);
         return std::string();
     });
 }
@@ -201,14 +208,14 @@ DRV_OP(df_wcells) {
             nix::Variant v = variantOf(x.substr(p + 1));
             if (r.byName) cells.push_back(nix::Cell(r.name, v)); else cells.push_back(nix::Cell(r.idx, v));
         }
-        st.df.writeCells(tokNat(a[1]), cells);
+        wrH().writeCells(tokNat(a[1]), cells);
         return std::string();
     });
 }
 // df_wcell <row> <col index> Type:value : writeCell(row, col, v)
 DRV_OP(df_wcell) {
     if (a.size() != 4) throw ProtoError("df_wcell arity");
-    return guarded([&]() { st.df.writeCell(tokNat(a[1]), (unsigned) tokNat(a[2]), variantOf(a[3])); return std::string(); });
+    return guarded([&]() { wrH().writeCell(tokNat(a[1]), (unsigned) tokNat(a[2]), variantOf(a[3])); return std::string(); });
 }
 // df_wcol <ref> <Type> [values] <offset> <count>
 DRV_OP(df_wcol) {
@@ -224,7 +231,7 @@ DRV_OP(df_rrow) {
     if (a.size() != 2) throw ProtoError("df_rrow arity");
     return guarded([&]() {
         std::vector<std::string> l;
-        for (auto &v : st.df.readRow(tokNat(a[1]))) l.push_back(variantTok(v));
+        for (auto &v : rdH().readRow(tokNat(a[1]))) l.push_back(variantTok(v));
         return listTok(l);
     });
 }
@@ -235,7 +242,7 @@ DRV_OP(df_rcells) {
         std::vector<std::string> names;
         for (auto &x : tokList(a[2])) names.push_back(unhexStr(x));
         std::vector<std::string> l;
-        for (auto &c : st.df.readCells(tokNat(a[1]), names)) l.push_back(hexStr(c.name) + "=" + variantTok(c));
+        for (auto &c : rdH().readCells(tokNat(a[1]), names)) l.push_back(hexStr(c.name) + "=" + variantTok(c));
         return listTok(l);
     });
 }
@@ -244,7 +251,7 @@ DRV_OP(df_rcell) {
     if (a.size() != 3) throw ProtoError("df_rcell arity");
     return guarded([&]() {
         ColRef r = refOf(a[2]);
-        nix::Cell c = r.byName ? st.df.readCell(tokNat(a[1]), r.name) : st.df.readCell(tokNat(a[1]), r.idx);
+        nix::Cell c = r.byName ? rdH().readCell(tokNat(a[1]), r.name) : rdH().readCell(tokNat(a[1]), r.idx);
         return hexStr(c.name) + "=" + variantTok(c);
     });
 }
@@ -268,11 +275,11 @@ DRV_OP(df_rcolc) {
 DRV_OP(df_reopen) {
     if (a.size() != 2) throw ProtoError("df_reopen arity");
     return guarded([&]() {
-        st.df = nix::DataFrame(); st.block = nix::Block();
+        st.h[0] = nix::DataFrame(); st.h[1] = nix::DataFrame(); st.block = nix::Block();
         st.file.close();
         st.file = nix::File::open(st.path, a[1] == "ro" ? nix::FileMode::ReadOnly : nix::FileMode::ReadWrite);
         st.block = st.file.getBlock("b");
-        st.df = st.block.getDataFrame("df");
+        st.h[0] = st.block.getDataFrame("df"); st.h[1] = st.block.getDataFrame("df");
         return std::string();
     });
 }
